@@ -832,7 +832,7 @@ func gencodeCorpus(idx int, pkg, fileName, goPkg string) *descriptorpb.FileDescr
 		fd.EnumType = []*descriptorpb.EnumDescriptorProto{{Name: proto.String("E"), Value: []*descriptorpb.EnumValueDescriptorProto{{Name: proto.String("value"), Number: proto.Int32(0)}, {Name: proto.String("name"), Number: proto.Int32(1)}}}}
 	case 7: // FQ4: nested M.X and top-level M_X
 		fd.MessageType = []*descriptorpb.DescriptorProto{{Name: proto.String("M"), NestedType: []*descriptorpb.DescriptorProto{{Name: proto.String("X")}}}, {Name: proto.String("M_X")}}
-	case 8: // FQ5: editions, enum-level enum_type feature
+	case 8: // editions, enum-level enum_type feature (was FQ5; repaired by 42c075f, kept as regression witness)
 		fd.Syntax = proto.String("editions")
 		fd.Edition = descriptorpb.Edition_EDITION_2023.Enum()
 		e := &descriptorpb.EnumDescriptorProto{Name: proto.String("E"), Value: []*descriptorpb.EnumValueDescriptorProto{{Name: proto.String("A"), Number: proto.Int32(0)}, {Name: proto.String("B"), Number: proto.Int32(1)}},
@@ -949,7 +949,8 @@ func gencodeRun(fd *descriptorpb.FileDescriptorProto, param string) (resp *plugi
 //	FQ3  an enum value called "name" or "value" (collides with the <Enum>_name / <Enum>_value maps)
 //	FQ4  two package-level declarations with the same underscore-joined Go name (M.X and M_X, M_builder,
 //	     a nested enum value M_Value and the oneof wrapper type M_Value, ...), by protogen's own GoIdents
-//	FQ5  an enum that sets features.enum_type itself (internal/filedesc only inherits enum features)
+//	(FQ5, enum-level features.enum_type ignored by internal/filedesc, was repaired in the repository
+//	by 42c075f; corpus 8 stays as a regression witness and is reported as an ordinary violation)
 //	FQ7  a float/double field with [default = -0] (the generated constant float64(-0) is +0)
 //	FQ6  a comment that consists of blank lines only (the single go/printer pass is then not a gofmt fixed point)
 func gencodeKnown(fd *descriptorpb.FileDescriptorProto, gen *protogen.Plugin) map[string]bool {
@@ -982,9 +983,6 @@ func gencodeKnown(fd *descriptorpb.FileDescriptorProto, gen *protogen.Plugin) ma
 				if v.Desc.Name() == "name" || v.Desc.Name() == "value" {
 					known["FQ3"] = true
 				}
-			}
-			if e.Desc.Options().(*descriptorpb.EnumOptions).GetFeatures().GetEnumType() != descriptorpb.FeatureSet_ENUM_TYPE_UNKNOWN {
-				known["FQ5"] = true
 			}
 		}
 	}
@@ -1166,7 +1164,6 @@ func gencodeReport(c *Ctx, u *gencodeUnit, kind string, what string, extra ...st
 		"compile": {"F12", "FQ1", "FQ2", "FQ3", "FQ4"},
 		"gofmt":   {"FQ1", "FQ6"},
 		"parse":   {"FQ1"},
-		"closed":  {"FQ5"},
 		"negzero": {"FQ7"},
 	}
 	for _, id := range explains[kind] {
